@@ -15,7 +15,11 @@ import Proofs.Sched
 import Proofs.SchedTrans
 import Martian.SchedProgress
 import Proofs.SchedProgress
+import Proofs.SchedFail
 
+/-! ### definitional unfoldings (documentation of the model, not guarantees)
+The theorems whose docstring starts with DEFINITIONAL UNFOLDING (failed_fork_meta_fails_fork, complete_needs_no_failure, failed_first_fork_reported, independent_unaffected) restate a guard
+or a definition of the model; they stay where later theorems use them and are not cited as guarantees. -/
 namespace Props.C06
 open Martian.Sched
 
@@ -30,7 +34,7 @@ theorem fail_sticks {g : List NodeInfo} {s : State} {e : Ev} {o : Obj} (hr : Rea
   · exact Or.inl (seen_mono (reach_objsInv hr) hne (by simp) h)
   · exact Or.inr (seen_mono (reach_objsInv hr) hne (by simp) h)
 
-/-- a failure marker in the fork's own metadata makes the fork failed … -/
+/-- DEFINITIONAL UNFOLDING (documentation of the model / of a guard, not a guarantee). a failure marker in the fork's own metadata makes the fork failed … -/
 theorem failed_fork_meta_fails_fork {s : State} {n f : Nat}
     (h : s.st ⟨n, f, .fork⟩ = some .failed) : forkState s n f = .failed := by
   simp [forkState, forkStateOf, h]
@@ -65,7 +69,7 @@ theorem failed_chunk_fails_fork {s : State} {n f i : Nat} (hi : i < s.nch n f)
   rw [hj, hsum]
   split <;> simp_all
 
-/-- `complete_needs_no_failure`: a node whose state is Complete (or Disabled)
+/-- DEFINITIONAL UNFOLDING (documentation of the model / of a guard, not a guarantee). `complete_needs_no_failure`: a node whose state is Complete (or Disabled)
 has no failed fork — all its forks are complete or disabled. -/
 theorem complete_needs_no_failure {s : State} {n : Nat}
     (h : nodeState s n = .complete ∨ nodeState s n = .disabled) :
@@ -97,7 +101,9 @@ theorem dependents_blocked {g : List NodeInfo} {s : State} {o : Obj} (hr : Reach
   · rename_i d; cases d <;> simp
   · simp [hs] at hd
 
-/-- "a node with an unfinished prenode is never complete": while some prenode `p`
+/-- PARTIAL (hypothesis `reopened = false`, which fails on real histories after a restart that
+re-opens a finished node; negative witness `reopened_breaks_blocking`).
+"a node with an unfinished prenode is never complete": while some prenode `p`
 of `q` is not finished, no fork of `q` has a `_complete` and `q` is not Complete.
 Hypothesis `reopened = false`: no restart so far gave an already finished node
 new forks (`RestoreForks` does that to a Disabled mapped call whose placeholder
@@ -105,7 +111,7 @@ fork had been disabled before its forks were known — seen on real histories; t
 node is then unfinished again for a moment although its consumers may be
 complete).  The flag is sticky, so the theorem covers every history up to the
 first such restart, in particular every uninterrupted run. -/
-theorem unfinished_prenode_blocks_completion {g : List NodeInfo} {s : State} {q p : Nat}
+theorem unfinished_prenode_blocks_completion_partial {g : List NodeInfo} {s : State} {q p : Nat}
     (hr : Reach g s) (hro : s.reopened = false) (hp : p ∈ s.pre q) (hnd : nodeDone s p = false) :
     (∀ f, (s.m ⟨q, f, .fork⟩).disk.has .complete = false) ∧ nodeState s q ≠ .complete := by
   have hall : ∀ f, (s.m ⟨q, f, .fork⟩).disk.has .complete = false := by
@@ -121,30 +127,30 @@ theorem unfinished_prenode_blocks_completion {g : List NodeInfo} {s : State} {q 
 /-- when a job of a node is submitted, EVERY upstream node (transitively through
 prenode edges; see `Upstream`: intermediate nodes that are Disabled do not
 propagate, exactly as in `Node.getState`) is finished -/
-theorem launch_after_upstream {g : List NodeInfo} {s : State} {o : Obj} {p : Nat}
+theorem launch_after_upstream_partial {g : List NodeInfo} {s : State} {o : Obj} {p : Nat}
     (hr : Reach g s) (hro : s.reopened = false) (hen : enabled s (.launch o) = true)
     (hu : Upstream s o.n p) : nodeDone s p = true := by
   apply upstream_done (reach_objsInv hr) (reach_completeInv hr) hro hu
   intro q hq
   exact (dependents_blocked hr hen q hq).1
 
-/-- `dependents_blocked_transitive`: while an upstream node `p` of `n` has a failed
+/-- `dependents_blocked_transitive_partial`: while an upstream node `p` of `n` has a failed
 fork, no job of `n` can be submitted. -/
-theorem dependents_blocked_transitive {g : List NodeInfo} {s : State} {o : Obj} {p f : Nat}
+theorem dependents_blocked_transitive_partial {g : List NodeInfo} {s : State} {o : Obj} {p f : Nat}
     (hr : Reach g s) (hro : s.reopened = false) (hu : Upstream s o.n p) (hf : f ∈ s.forksOf p)
     (hfail : forkState s p f = .failed) : enabled s (.launch o) = false := by
   cases hen : enabled s (.launch o)
   · rfl
-  · have hd := launch_after_upstream hr hro hen hu
+  · have hd := launch_after_upstream_partial hr hro hen hu
     have := forkState_done.mpr (nodeDone_iff.mp hd f hf)
     rw [hfail] at this
     rcases this with h | h <;> cases h
 
-/-- `dependents_never_complete_transitive`: while an upstream node `p` of `n` (transitively,
+/-- `dependents_never_complete_transitive_partial`: while an upstream node `p` of `n` (transitively,
 `Upstream`) is unfinished — in particular while it has a failed fork — no fork of `n` has a
 `_complete` and `n` is not Complete: the failure cannot be overtaken, the pipestance cannot
 report success for anything that consumes the failed call. -/
-theorem dependents_never_complete_transitive {g : List NodeInfo} {s : State} {n p : Nat}
+theorem dependents_never_complete_transitive_partial {g : List NodeInfo} {s : State} {n p : Nat}
     (hr : Reach g s) (hro : s.reopened = false) (hu : Upstream s n p)
     (hnd : nodeDone s p = false) :
     (∀ f, (s.m ⟨n, f, .fork⟩).disk.has .complete = false) ∧ nodeState s n ≠ .complete :=
@@ -161,20 +167,69 @@ theorem failed_fork_unfinished {s : State} {p f : Nat} (hf : f ∈ s.forksOf p)
 
 /-- `independent_unaffected` (progress half; the guard half is below): in ANY reachable
 state — whatever has failed elsewhere in the pipestance — a node whose own objects carry
-no failure marker, whose prenodes are finished and whose cached state is current is either
-finished or can take a step: some quiet event (stub/fork `_complete`, chunk definition, job
-submission, start, end, journal read) of the scheduler/job alphabet is enabled and lowers
-the progress measure.  Failures block exactly the downstream of the failed call. -/
+no failure marker and whose own submitted jobs are alive, whose prenodes are finished and
+whose cached state is current is either finished or can take a step OF ITS OWN: some event `e`
+of the scheduler/job/journal alphabet with `e.node = some n` (stub/fork `_complete`, chunk
+definition, job submission, start, end, journal read of an object of `n`) is enabled and
+lowers the progress measure.  (One state, one step: that the node then runs to completion
+next to the failure needs fairness towards that node and is not stated.) -/
 theorem independent_node_can_progress {g : List NodeInfo} {s : State} {n : Nat} (hr : Reach g s)
     (hn : n < s.nodes.length) (hph : s.phase = .normal)
     (hfresh : s.cachedOf n = nodeState s n) (hpre : ∀ p ∈ s.pre n, nodeDone s p = true)
     (hclean : ∀ f r, (s.m ⟨n, f, r⟩).disk.has .errors = false ∧
-      (s.m ⟨n, f, r⟩).disk.has .assert = false) :
-    nodeDone s n = true ∨ ∃ e, Progress s e := by
+      (s.m ⟨n, f, r⟩).disk.has .assert = false)
+    (halive : AliveNode s n) :
+    nodeDone s n = true ∨ ∃ e, Progress s e ∧ e.node = some n := by
   cases hd : nodeDone s n
   · exact Or.inr (node_progress (reach_objsInv hr) (reach_roleInv hr) (reach_launchInv hr) hn hph
-      hfresh hpre hclean hd)
+      hfresh hpre hclean halive hd)
   · exact Or.inl rfl
+
+/-- `failed_job_never_reports_success_partial` (the headline "the pipestance ends failed and never
+reports success", lifted over histories): let job object `o` of stage fork (n, f) be SEEN failed
+while the fork is unfinished, where `o` is the join; or a chunk the split defined, the join not
+having been submitted; or the split, no chunk and no join having been submitted (`FailedBlock`:
+these are the situations in which a job's own `_errors`/`_assert`, a silent death or mrp's
+`_errors` can arise, see the guards of `jobend`/`silentfail`/`mrpWriteOk`).  Then along EVERY
+continuation (any events: interruptions, other failures, restarts, resets of other objects,
+fork-structure events) in which `o` itself is not reset, the fork never becomes complete or
+disabled — so its node is never Complete/Disabled while the fork is listed, and the
+pipestance is never `Finished`.
+PARTIAL: the precondition is not derived from reachability (a theorem "every reachable state
+with a failed job object of an unfinished fork satisfies `FailedBlock`" would need the
+completion chain under failures); fork-level failure markers are covered by
+`failed_fork_sticks`; pipelines have no job objects.  The three histories by which the
+previous model reached `Finished` with a failed object (a `silentfail` after completion,
+`_errors` then `_complete` of one job, a failed chunk forgotten by redefining the chunk count
+at re-attach) are rejected now: `late_silentfail_rejected`, `errors_then_complete_rejected`,
+`forget_failed_chunk_rejected`. -/
+theorem failed_job_never_reports_success_partial {g : List NodeInfo} {s0 : State}
+    {σ : Nat → State} {es : Nat → Ev} {n f : Nat} {o : Obj} (hr : Reach g s0)
+    (hrun : Run s0 σ es) (hnr : ∀ i, es i ≠ .reset o) (h0 : FailedBlock s0 n f o) :
+    ∀ j, (σ j).st o = some .failed ∧ fmDone (σ j) n f = false ∧
+      (n < (σ j).nodes.length → f ∈ (σ j).forksOf n → nodeDone (σ j) n = false ∧ ¬ Finished (σ j)) := by
+  have key : ∀ j, Reach g (σ j) ∧ FailedBlock (σ j) n f o := by
+    intro j
+    induction j with
+    | zero => rw [hrun.start]; exact ⟨hr, h0⟩
+    | succ j ih =>
+      rw [hrun.next]
+      exact ⟨Reach.step ih.1 (hrun.en j), failedBlock_step ih.1 (hrun.en j) (hnr j) ih.2⟩
+  intro j
+  obtain ⟨_, hb⟩ := key j
+  refine ⟨hb.failed, hb.unfinished, fun hn hf => ?_⟩
+  have hnd : nodeDone (σ j) n = false := by
+    cases hd : nodeDone (σ j) n
+    · rfl
+    · have := nodeDone_iff.mp hd f hf
+      rw [hb.unfinished] at this; cases this
+  exact ⟨hnd, fun hfin => by rw [(hfin.2 n hn).1] at hnd; cases hnd⟩
+
+/-- one step of it, in any reachable state -/
+theorem failed_blocks_fork {g : List NodeInfo} {s : State} {e : Ev} {n f : Nat} {o : Obj}
+    (hr : Reach g s) (hen : enabled s e = true) (hne : e ≠ .reset o) (h : FailedBlock s n f o) :
+    FailedBlock (apply s e) n f o :=
+  failedBlock_step hr hen hne h
 
 /-- `error_names_stage`: what `Node.getFatalError` (model `fatalError`: the first metadata in
 `collectMetadatas` order whose state is failed; `_errors` before `_assert`) reports is a
@@ -207,7 +262,7 @@ structure SameNode (n : Nat) (s s' : State) : Prop where
   nch : ∀ f, s.nch n f = s'.nch n f
   metas : ∀ f r, s.m ⟨n, f, r⟩ = s'.m ⟨n, f, r⟩
 
-/-- `independent_unaffected`: whether a job of node `n` may be submitted depends
+/-- DEFINITIONAL UNFOLDING (documentation of the model / of a guard, not a guarantee). `independent_unaffected`: whether a job of node `n` may be submitted depends
 only on node `n`'s own forks/objects and on its cached state (which itself was
 computed from `n` and its prenodes): failures elsewhere do not block it. -/
 theorem independent_unaffected {s s' : State} {o : Obj} (h : SameNode o.n s s') :
@@ -226,7 +281,7 @@ with finished prenodes give Running, not Failed. -/
 theorem failed_fork_can_be_masked : nodeStateOf [.chunksRunning, .failed] true = .running := by
   decide
 
-/-- … whereas a failed fork in front is reported at once -/
+/-- DEFINITIONAL UNFOLDING (documentation of the model / of a guard, not a guarantee). … whereas a failed fork in front is reported at once -/
 theorem failed_first_fork_reported (r : List FState) (b : Bool) :
     nodeStateOf (.failed :: r) b = .failed := rfl
 
@@ -273,7 +328,7 @@ example : 0 ∈ s3.forksOf 0 ∧ forkState s3 0 0 = .failed ∧
 /-- in the chain 0 → 1 → 2 with node 0 failed: node 2 has no complete fork and is not
 Complete (transitively), node 0 is Failed and `getFatalError` names its chunk and `_errors` -/
 example : (∀ f, (s3.m ⟨2, f, .fork⟩).disk.has .complete = false) ∧ nodeState s3 2 ≠ .complete :=
-  dependents_never_complete_transitive (g := g3) (p := 0) (reach_of_match g3 h3) (by decide)
+  dependents_never_complete_transitive_partial (g := g3) (p := 0) (reach_of_match g3 h3) (by decide)
     (.step (q := 1) (by decide) (by decide) (.direct (by decide))) (by decide)
 
 example : nodeState s3 0 = .failed ∧ fatalError s3 0 = some (⟨0, 0, .chunk 0⟩, .errors) := by decide
@@ -296,6 +351,80 @@ def s4 : State := match replay (init g4) h4 with
 example : (match replay (init g4) h4 with | .ok _ => true | .error _ => false) = true := by decide
 example : nodeState s4 0 = .failed ∧ s4.phase = .normal ∧ s4.cachedOf 1 = nodeState s4 1 ∧
     nodeDone s4 1 = false ∧ s4.pre 1 = [] := by decide
-example : Progress s4 (.W ⟨1, 0, .split⟩ .complete) := ⟨by decide, by decide, by decide⟩
+example : Progress s4 (.W ⟨1, 0, .split⟩ .complete) ∧
+    (Ev.W ⟨1, 0, .split⟩ .complete).node = some 1 := ⟨⟨by decide, by decide, by decide⟩, rfl⟩
+
+/-! ### the three histories by which the previous model reached `Finished` with a failed,
+never reset job object are rejected by the guards of the real system -/
+
+def gS : List NodeInfo := [{ kind := .splitstage, pre := [] }]
+
+def rejectedAt (g : List NodeInfo) (evs : List Ev) : Option (Nat × String) :=
+  match replay (init g) evs with
+  | .ok _ => none
+  | .error r => some r
+
+/-- a job that has ended cannot die silently afterwards (`silentfail` needs a live job) -/
+theorem late_silentfail_rejected :
+    rejectedAt gS
+      [.fork 0 0, .nodestate 0 .running, .refresh, .launch ⟨0, 0, .split⟩,
+       .joblog ⟨0, 0, .split⟩, .jobend ⟨0, 0, .split⟩ .complete, .R ⟨0, 0, .split⟩ .complete,
+       .launch ⟨0, 0, .join⟩, .joblog ⟨0, 0, .join⟩, .jobend ⟨0, 0, .join⟩ .complete,
+       .R ⟨0, 0, .join⟩ .complete, .W ⟨0, 0, .fork⟩ .complete, .nodestate 0 .complete,
+       .silentfail ⟨0, 0, .split⟩] = some (13, "job-dead") := by decide
+
+/-- a job ends once: `_errors` and then `_complete` from the same job is not a history -/
+theorem errors_then_complete_rejected :
+    rejectedAt gS
+      [.fork 0 0, .nodestate 0 .running, .refresh, .launch ⟨0, 0, .split⟩,
+       .joblog ⟨0, 0, .split⟩, .jobend ⟨0, 0, .split⟩ .errors, .jobend ⟨0, 0, .split⟩ .complete]
+      = some (6, "job-dead") := by decide
+
+/-- re-attaching cannot forget a failed chunk by redefining the chunk count: a chunk object is
+only dropped when its directory is empty -/
+theorem forget_failed_chunk_rejected :
+    rejectedAt gS
+      [.fork 0 0, .nodestate 0 .running, .refresh, .launch ⟨0, 0, .split⟩,
+       .joblog ⟨0, 0, .split⟩, .jobend ⟨0, 0, .split⟩ .complete, .R ⟨0, 0, .split⟩ .complete,
+       .mkchunks 0 0 1, .launch ⟨0, 0, .chunk 0⟩, .joblog ⟨0, 0, .chunk 0⟩,
+       .jobend ⟨0, 0, .chunk 0⟩ .errors, .R ⟨0, 0, .chunk 0⟩ .errors, .nodestate 0 .failed,
+       .crash, .restart, .mkchunks 0 0 0] = some (15, "chunks-redefined-at-reattach") := by decide
+
+/-- … and that state satisfies `FailedBlock`: the chunk is seen failed, in range, the join has
+not been submitted — `failed_job_never_reports_success_partial` applies to every continuation -/
+def sFailedChunk : State :=
+  prefixState (init gS)
+    [.fork 0 0, .nodestate 0 .running, .refresh, .launch ⟨0, 0, .split⟩,
+     .joblog ⟨0, 0, .split⟩, .jobend ⟨0, 0, .split⟩ .complete, .R ⟨0, 0, .split⟩ .complete,
+     .mkchunks 0 0 1, .launch ⟨0, 0, .chunk 0⟩, .joblog ⟨0, 0, .chunk 0⟩,
+     .jobend ⟨0, 0, .chunk 0⟩ .errors, .R ⟨0, 0, .chunk 0⟩ .errors] 12
+
+example : FailedBlock sFailedChunk 0 0 ⟨0, 0, .chunk 0⟩ :=
+  ⟨by decide, by decide, by decide, .chunk 0 (by decide) ⟨by decide, by decide⟩⟩
+
+/-- Negative witness for the hypothesis `reopened = false` of the `…_partial` theorems above:
+node 0 has no fork at first (it counts as Disabled), its consumer node 1 runs and completes;
+mrp is restarted and `RestoreForks` gives node 0 a fork: now the prenode is unfinished while the
+consumer is complete. -/
+def g2r : List NodeInfo := [{ kind := .stage, pre := [] }, { kind := .stage, pre := [0] }]
+def sReopened : State :=
+  prefixState (init g2r)
+    [.nodestate 0 .disabled, .fork 1 0, .nodestate 1 .running, .refresh,
+     .W ⟨1, 0, .split⟩ .complete, .mkchunks 1 0 1, .launch ⟨1, 0, .chunk 0⟩,
+     .joblog ⟨1, 0, .chunk 0⟩, .jobend ⟨1, 0, .chunk 0⟩ .complete, .R ⟨1, 0, .chunk 0⟩ .complete,
+     .W ⟨1, 0, .join⟩ .complete, .W ⟨1, 0, .fork⟩ .complete, .nodestate 1 .complete,
+     .crash, .restart, .fork 0 0] 16
+
+theorem reopened_breaks_blocking :
+    sReopened.reopened = true ∧ 0 ∈ sReopened.pre 1 ∧ nodeDone sReopened 0 = false ∧
+    (sReopened.m ⟨1, 0, .fork⟩).disk.has .complete = true ∧ nodeState sReopened 1 = .complete := by
+  decide
+
+example : (match replay (init g2r)
+    [.nodestate 0 .disabled, .fork 1 0, .nodestate 1 .running, .refresh,
+     .W ⟨1, 0, .split⟩ .complete, .mkchunks 1 0 1, .launch ⟨1, 0, .chunk 0⟩,
+     .joblog ⟨1, 0, .chunk 0⟩, .jobend ⟨1, 0, .chunk 0⟩ .complete, .R ⟨1, 0, .chunk 0⟩ .complete,
+     .W ⟨1, 0, .join⟩ .complete, .W ⟨1, 0, .fork⟩ .complete, .nodestate 1 .complete,
+     .crash, .restart, .fork 0 0] with | .ok _ => true | .error _ => false) = true := by decide
 
 end Props.C06
